@@ -266,16 +266,20 @@ pub fn c14_hypercube<E: Env>(e: &mut E, d: &[usize]) {
 }
 
 pub fn c14_hyperrectangle<E: Env>(e: &mut E, d: &[usize]) {
-    // d[0] = n, d[1] = pattern of infinite bounds: 2 bits per axis (bit0: lower infinite, bit1: upper infinite)
+    // d[0] = n, d[1] = pattern of infinite bounds: 2 bits per axis (bit0: lower infinite, bit1: upper infinite);
+    // optional d[2] = same layout: the finite bound is the constant 0.0 (0.0 is not "normal" for f64::is_normal) instead of a symbol
     let (n, pat) = (d[0], d[1]);
+    let zmask = if d.len() > 2 { d[2] } else { 0 };
     let mut iv = Vec::new();
     let mut los = Vec::new();
     let mut his = Vec::new();
     for i in 0..n {
         let lo_inf = (pat >> (2 * i)) & 1 == 1;
         let hi_inf = (pat >> (2 * i + 1)) & 1 == 1;
-        let lo = if lo_inf { e.k(f64::NEG_INFINITY) } else { e.real(&format!("lo_{i}")) };
-        let hi = if hi_inf { e.k(f64::INFINITY) } else { e.real(&format!("hi_{i}")) };
+        let lo_zero = (zmask >> (2 * i)) & 1 == 1;
+        let hi_zero = (zmask >> (2 * i + 1)) & 1 == 1;
+        let lo = if lo_inf { e.k(f64::NEG_INFINITY) } else if lo_zero { e.k(0.0) } else { e.real(&format!("lo_{i}")) };
+        let hi = if hi_inf { e.k(f64::INFINITY) } else if hi_zero { e.k(0.0) } else { e.real(&format!("hi_{i}")) };
         if !lo_inf && !hi_inf {
             e.assume(lo <= hi);
         }
@@ -308,8 +312,9 @@ pub fn c14_axis_bounds<E: Env>(e: &mut E, d: &[usize]) {
     let (n, axis, pat) = (d[0], d[1], d[2]);
     let lo_inf = pat & 1 == 1;
     let hi_inf = pat & 2 == 2;
-    let lo = if lo_inf { e.k(f64::NEG_INFINITY) } else { e.real("lo") };
-    let hi = if hi_inf { e.k(f64::INFINITY) } else { e.real("hi") };
+    let zmask = if d.len() > 3 { d[3] } else { 0 };      // bit0 / bit1: the finite lower / upper bound is the constant 0.0
+    let lo = if lo_inf { e.k(f64::NEG_INFINITY) } else if zmask & 1 == 1 { e.k(0.0) } else { e.real("lo") };
+    let hi = if hi_inf { e.k(f64::INFINITY) } else if zmask & 2 == 2 { e.k(0.0) } else { e.real("hi") };
     if !lo_inf && !hi_inf {
         e.assume(lo <= hi);
     }
